@@ -76,4 +76,35 @@ class C19(Prop):
         core.tie_run(stats, "addr", ["gen", seed, 200000 if tier == "thorough" else 20000], self.nontrivial, cmp)
 
 
-PROPS = {p.id: p() for p in [C02, C17, C19]}
+class C14(Prop):
+    id = "C14"
+    module = "MioModel.Props.C14"
+    bins = ["rid"]
+    run_bin = "rid"
+    rule = ("cases = structured raw 64-bit values (single bits, complements, field boundaries, random widths) "
+            "through ResourceId::from(raw) + accessors + Display and through the poll-token conversions; "
+            "ResourceId::new on in-range and out-of-range fields (debug_assert = panic); generator runs from "
+            "arbitrary counters incl. the 2^56 edge; plus one live-network row (#table) checking the transport "
+            "table and that listen/connect on every transport hand out ids with that transport's adapter id, the "
+            "right type and consecutive base values. non-trivial = raw value with bits in >= 2 of the 3 fields, "
+            "or an edge case (tags guard/wrap/edge); distinct = by case line")
+    trusted_base = [KERNEL, TIE, "hooks verif_new / verif_token_of / verif_id_of_token / ResourceIdGenerator re-export (feature verif-hooks, add-only wrappers around the private functions)",
+                    "model of resource_id.rs / poll.rs token / loader.rs table written by hand (MioModel/ResourceId.lean)"]
+    assumptions = ["usize is 64 bit", "fewer than 2^55 registrations per registry (beyond it the token shift drops a bit; stated in the theorems)",
+                   "history-level parts of C14 (stale endpoints, event attribution) are proved on the network model M5"]
+
+    def nontrivial(self, case, tags):
+        if any(t in tags for t in ("guard", "wrap", "edge", "table")):
+            return True
+        w = case.split(" ")
+        if len(w) >= 3 and w[1] in ("acc", "tok") and w[2].isdigit():
+            raw = int(w[2])
+            return sum(1 for f in (raw & 0x7f, raw & 0x80, raw >> 8) if f) >= 2
+        return w[1] in ("mk", "gen") if len(w) > 1 else False
+
+    def tie(self, stats, tier, seed):
+        cmp = getattr(self, "compare", True)
+        core.tie_run(stats, "rid", ["gen", seed, 300000 if tier == "thorough" else 20000], self.nontrivial, cmp)
+
+
+PROPS = {p.id: p() for p in [C02, C14, C17, C19]}
